@@ -1,8 +1,63 @@
 import XmppModel.Prelude.Hex
-/-! Driver module for C20: `handle args` answers one protocol line (fields after the
-property id); `none` means the line is not understood (`!bad-op`). -/
-namespace XmppModel.Driver.C20
+import XmppModel.Model.Caps
+/-! Driver for C20 (line protocol: see harness/c20/c20.go).
 
-def handle (_args : List String) : Option String := none
+    ver <ids> <feats> <forms>            -> hex of the string written to the hash
+    append <dst> <b64>                   -> hex of AppendHash's result, given the encoded sum
+
+Strings inside lists are `x<hex>` (so `x` is the empty string and `-` the empty list);
+identity = `cat:typ:lang:name`; form = `F` followed by `|`-joined fields; field =
+`var=` followed by `,`-joined values. -/
+namespace XmppModel.Driver.C20
+open XmppModel XmppModel.Caps
+
+def pStr (s : String) : Option Bytes :=
+  match s.toList with
+  | 'x' :: r => hexDecodeChars r
+  | _ => none
+
+def pIdentity (s : String) : Option Identity :=
+  match splitList s ':' with
+  | [c, t, l, n] => do
+    pure ⟨← pStr c, ← pStr t, ← pStr l, ← pStr n⟩
+  | _ => none
+
+def pField (s : String) : Option Field :=
+  -- `~type` (the data-form field type the harness used) is not part of the model
+  match splitList s '~' with
+  | [body, _typ] =>
+    match splitList body '=' with
+    | [v, vals] => do
+      let var ← pStr v
+      let vs ← if vals == "" then some [] else mapM? pStr (splitList vals ',')
+      pure ⟨var, vs⟩
+    | _ => none
+  | _ => none
+
+def pForm (s : String) : Option Form :=
+  match s.toList with
+  | 'F' :: r =>
+    if r.isEmpty then some ⟨[]⟩ else do
+      let fs ← mapM? pField (splitList (String.ofList r) '|')
+      pure ⟨fs⟩
+  | _ => none
+
+def pInfo (ids feats forms : String) : Option Info := do
+  let i ← mapM? pIdentity (splitList ids ',')
+  let f ← mapM? pStr (splitList feats ',')
+  let g ← mapM? pForm (splitList forms ';')
+  pure ⟨i, f, g⟩
+
+def handle (args : List String) : Option String :=
+  match args with
+  | ["ver", ids, feats, forms, _how] => do
+    let i ← pInfo ids feats forms
+    pure (hexEncode (verImpl i))
+  | ["append", dst, b64] => do
+    let d ← hexDecode dst
+    let b ← hexDecode b64
+    -- `appendHash` with the hash and the encoding supplied by the harness as the constant `b`
+    pure (hexEncode (appendHash (fun _ => b) id d ⟨[], [], []⟩))
+  | _ => none
 
 end XmppModel.Driver.C20
